@@ -176,6 +176,11 @@ def call_program(prog, fn, d, pool, rng, poisons=None):
     res = {"sha": None, "exc": None, "violations": viol, "dirty": 0, "poisons": None}
 
     def guarded(call):
+        # fault: cold CPython type-attribute cache.  When a gufunc kernel raises while FP status flags
+        # are pending, numpy emits its RuntimeWarning with the exception still set; with a cache miss
+        # in that path CPython clears the pending exception, the call *returns*, and the pixels after
+        # the raising one were never computed.  Evicting the cache makes that outcome deterministic.
+        sys._clear_type_cache()
         try:
             return call(), None
         except IndexError as e:
